@@ -202,12 +202,126 @@ def assemble_batch(tmpdir, tag, chunks, bits):
     return None, errors, []
 
 
+CROSS = {
+    "neon": dict(mc=["-triple=armv7-none-eabi", "-mattr=+neon,+vfp3,+dsp,+v6t2"], prefix="", objdump=["--triple=armv7-none-eabi", "--mattr=+neon,+vfp3,+dsp"]),
+    "mips": dict(mc=["-triple=mipsel-none-elf", "-mcpu=mips32r2", "-mattr=+dsp,+dspr2"], prefix=".set noreorder\n.set noat\n",
+                 objdump=["--triple=mipsel-none-elf", "--mcpu=mips32r2", "--mattr=+dsp,+dspr2"]),
+}
+LLVM_MC, LLVM_OBJCOPY, LLVM_OBJDUMP = "llvm-mc-14", "llvm-objcopy-14", "llvm-objdump-14"
+CROSS_INSN_RE = re.compile(r"^\s*([0-9a-f]+):\s+((?:[0-9a-f]{2} )+)\s*(.*)$")
+
+
+def _cross_decode(obj, cfg):
+    """address -> normalised instruction text"""
+    r = run([LLVM_OBJDUMP, "-d", "--no-show-raw-insn"] + cfg["objdump"] + [obj])
+    out = {}
+    for line in r.stdout.split("\n"):
+        m = re.match(r"^\s*([0-9a-f]+):\s+(.*)$", line)
+        if not m:
+            continue
+        text = m.group(2)
+        text = re.split(r"\s+[@#]\s|\s<", text)[0]         # drop comments and symbolic targets
+        text = re.sub(r"\s+", " ", text.replace("\t", " ")).strip()
+        out[int(m.group(1), 16)] = text
+    return out
+
+
+def _cross_equiv(a, b):
+    """decoded texts that denote the same instruction although the encodings differ"""
+    if a == b:
+        return True
+    def canon(t):
+        m = re.match(r"^(?:str (\w+), \[sp, #-4\]!|push \{(\w+)\}|stmdb sp!, \{(\w+)\})$", t)
+        if m:
+            return "push1 " + next(g for g in m.groups() if g)
+        m = re.match(r"^(?:ldr (\w+), \[sp\], #4|pop \{(\w+)\}|ldm sp!, \{(\w+)\})$", t)
+        if m:
+            return "pop1 " + next(g for g in m.groups() if g)
+        return t
+    if canon(a) == canon(b):
+        return True
+    nops = (r"^nop$", r"^mov r0, r0$", r"^or \$1, \$1, \$zero$", r"^move \$1, \$1$", r"^sll \$zero, \$zero, 0$", r"^andeq r0, r0, r0$")
+    if any(re.match(n, a) for n in nops) and any(re.match(n, b) for n in nops):
+        return True
+    return False
+
+
+def check_cross(records, idxs, tmpdir):
+    """non-x86 listings: llvm-mc assembles the text; the bytes must equal Orc's own, word by word, up to encodings that decode
+    to the same instruction.  A listing llvm-mc rejects is 'inconclusive' (dialect), never a violation."""
+    problems = []
+    nchecked = 0
+    for i in idxs:
+        rec = records[i]
+        cfg = CROSS[rec["target"]]
+        base = os.path.join(tmpdir, "x%d" % i)
+        with open(base + ".s", "w") as f:
+            f.write(cfg["prefix"] + rec["asm"] + "\n")
+        r = run([LLVM_MC, "-filetype=obj"] + cfg["mc"] + [base + ".s", "-o", base + ".o"])
+        if r.returncode != 0:
+            first = [l for l in r.stdout.split("\n") if "error" in l][:1]
+            src = [l for l in r.stdout.split("\n") if l.startswith("  ") or l.startswith("\t")][:1]
+            problems.append((rec, "inconclusive TOOL: llvm-mc does not accept the %s listing (dialect?): %s | %s" % (
+                rec["target"], (first or ["?"])[0][-120:], (src or [""])[0].strip()), True))
+            continue
+        run([LLVM_OBJCOPY, "-O", "binary", "--only-section=.text", base + ".o", base + ".bin"])
+        try:
+            mine = open(base + ".bin", "rb").read()
+        except OSError:
+            problems.append((rec, "inconclusive TOOL: no .text from llvm-objcopy", True))
+            continue
+        nchecked += 1
+        code = rec["code"]
+        if mine == code:
+            continue
+        # decode both and compare the words that differ
+        with open(base + "c.s", "w") as f:
+            f.write(".text\n" + "".join(".byte %s\n" % ",".join("0x%02x" % b for b in code[k:k + 32]) for k in range(0, len(code), 32)))
+        run([LLVM_MC, "-filetype=obj"] + cfg["mc"] + [base + "c.s", "-o", base + "c.o"])
+        dl = _cross_decode(base + ".o", cfg)
+        dc = _cross_decode(base + "c.o", cfg)
+        if len(mine) != len(code):
+            # find the first instruction where the decoded sequences part
+            la = [dl[a] for a in sorted(dl)]
+            lb = [dc[a] for a in sorted(dc)]
+            k = 0
+            while k < min(len(la), len(lb)) and _cross_equiv(la[k], lb[k]):
+                k += 1
+            problems.append((rec, "instruction %d differs: listing assembles to `%s`, orc emitted `%s` (%d vs %d bytes)" % (
+                k, la[k] if k < len(la) else "<end>", lb[k] if k < len(lb) else "<end>", len(mine), len(code)), False))
+            continue
+        bad = None
+        for off in range(0, len(code), 4):
+            if mine[off:off + 4] == code[off:off + 4]:
+                continue
+            a, b = dl.get(off, "<undecoded %s>" % mine[off:off + 4].hex()), dc.get(off, "<undecoded %s>" % code[off:off + 4].hex())
+            if not _cross_equiv(a, b):
+                bad = (off // 4, a, b)
+                break
+        if bad:
+            problems.append((rec, "instruction %d differs: listing assembles to `%s`, orc emitted `%s`" % bad, False))
+    return problems, nchecked
+
+
 def check_c12(records, tmpdir, batch=150):
     """returns list of (record, message) problems."""
     problems = []
     by_bits = {64: [], 32: []}
     seen = set()
+    cross_idx = []
     for i, r in enumerate(records):
+        if r["target"] in CROSS:
+            h = hashlib.sha1((r["asm"] + "|" + r["target"]).encode() + r["code"]).hexdigest()
+            if h not in seen:
+                seen.add(h)
+                cross_idx.append(i)
+    if cross_idx:
+        cp, cn = check_cross(records, cross_idx, tmpdir)
+        problems += cp
+    else:
+        cn = 0
+    x86_records = [(i, r) for i, r in enumerate(records) if r["target"] not in CROSS]
+    for i, r in x86_records:
         h = hashlib.sha1((r["asm"] + "|%d" % r["bits"]).encode() + r["code"]).hexdigest()
         if h in seen:
             continue
@@ -260,7 +374,7 @@ def check_c12(records, tmpdir, batch=150):
                     la = a[k] if k < len(a) else "<end>"
                     lb = b[k] if k < len(b) else "<end>"
                     problems.append((rec, "instruction %d differs: listing assembles to `%s`, orc emitted `%s`" % (k, la, lb), False))
-    return problems, nchecked
+    return problems, nchecked + cn
 
 
 XMM_RE = re.compile(r"%[xy]mm\d")
